@@ -3827,7 +3827,7 @@ class Qube(object):
             # x_powers[0] might not be a copy, but x_powers[-1] must be, because
             # we have already already handled expo == 1.
         for x_power in x_powers[:-1]:
-            result *= x_power
+            result = result * x_power
 
         return result
 
